@@ -225,7 +225,10 @@ func main() {
 	}
 }
 
+var sitesPath string
+
 func newCtx(o *opts) *Ctx {
+	sitesPath = o.sites
 	return &Ctx{Prop: o.prop, Tier: o.tier, Seed: o.seed, Scratch: o.scratch, Sites: loadSites(o.sites), Counters: map[string]int64{}}
 }
 
@@ -250,7 +253,9 @@ func shard(o *opts) {
 	}
 	seen := map[uint64]bool{}
 	simrt.ResetCounters()
+	simrt.SimPools = true
 	for _, i := range idxs {
+		simrt.ResetPools()
 		out := ck.RunCase(c, i)
 		res.Cases++
 		if out.Discarded {
@@ -399,6 +404,7 @@ func coord(o *opts) int {
 	}
 	redo := 0
 	mism := []string{}
+	mismSeen := map[string]bool{}
 	for rep, g := range []int{16, 1} {
 		out := filepath.Join(o.scratch, fmt.Sprintf("verify-%d.json", rep))
 		cmd := spawn(o, []string{"-only", strings.Join(only, ",")}, g, out)
@@ -413,15 +419,13 @@ func coord(o *opts) int {
 		}
 		for ks, d := range r.Digests {
 			redo++
-			if merged.Digests[ks] != d {
+			if merged.Digests[ks] != d && !mismSeen[ks] {
+				mismSeen[ks] = true
 				mism = append(mism, ks)
 			}
 		}
 	}
-	if len(mism) > 0 {
-		fmt.Fprintf(os.Stderr, "SIMULATOR NONDETERMINISM: case(s) %v of %s seed %d gave different event logs on re-execution\n", mism, o.prop, o.seed)
-		return 2
-	}
+	sort.Strings(mism)
 
 	// violations: dedupe by signature, match against known findings
 	findings := loadFindings(o.verif)
@@ -433,6 +437,57 @@ func coord(o *opts) int {
 			sigs = append(sigs, v.Signature)
 		}
 		bySig[v.Signature] = append(bySig[v.Signature], v)
+	}
+	dir := filepath.Join(o.verif, "replays")
+	os.MkdirAll(dir, 0o755)
+	writeReplay := func(v *Violation) string {
+		path := filepath.Join(dir, fmt.Sprintf("%s-%d-%d-%08x.json", o.prop, o.seed, v.Index, uint32(hashStr(v.Signature))))
+		b, _ := json.MarshalIndent(v, "", " ")
+		os.WriteFile(path, b, 0o644)
+		return path
+	}
+	confirm := func(path string) bool { // re-execute the replay file in a fresh process
+		cmd := exec.Command(os.Args[0], "replay", "-file", path, "-verif", o.verif, "-sites", o.sites, "-scratch", o.scratch)
+		cmd.Env = append(os.Environ(), "TZ=UTC")
+		err := cmd.Run()
+		ee, ok := err.(*exec.ExitError)
+		return ok && ee.ExitCode() == 1
+	}
+	historyDependent := false
+	if len(mism) > 0 {
+		// Event logs differed between processes. Either the simulator is not
+		// deterministic (then nothing it reports is trusted: exit 2), or the LIBRARY's
+		// behaviour depends on what the process did before (shards have different
+		// histories). Decide by running one mismatching case alone in two fresh processes.
+		var d [2]uint64
+		for i := range d {
+			out := filepath.Join(o.scratch, fmt.Sprintf("fresh-%d.json", i))
+			cmd := spawn(o, []string{"-only", mism[0]}, []int{4, 1}[i], out)
+			if err := cmd.Run(); err != nil {
+				return 2
+			}
+			var r ShardResult
+			b, _ := os.ReadFile(out)
+			if json.Unmarshal(b, &r) != nil {
+				return 2
+			}
+			d[i] = r.Digests[mism[0]]
+		}
+		if d[0] != d[1] {
+			fmt.Fprintf(os.Stderr, "SIMULATOR NONDETERMINISM: case %s of %s seed %d gives different event logs in two fresh processes\n", mism[0], o.prop, o.seed)
+			return 2
+		}
+		historyDependent = true
+		fmt.Printf("note: %d case(s) gave different event logs in processes with different earlier activity (first: case %s), but identical logs in two fresh processes: the library's behaviour depends on earlier activity in the process\n", len(mism), mism[0])
+		if o.prop == "C02" {
+			idx, _ := strconv.Atoi(mism[0])
+			cj, _ := json.Marshal(map[string]any{"dimension": "earlier-activity", "index": idx, "shards": n, "tier": o.tier})
+			v := &Violation{Property: "C02", Clause: "same-result", Signature: "diverge|earlier-activity|process",
+				Detail: fmt.Sprintf("case %d renders differently in a process that ran the shard's earlier cases than in a fresh process: output depends on earlier activity in the process (package-level state)", idx),
+				Seed:   o.seed, Index: idx, Case: cj}
+			bySig[v.Signature] = []*Violation{v}
+			sigs = append(sigs, v.Signature)
+		}
 	}
 	exit := 0
 	reported := 0
@@ -450,11 +505,13 @@ func coord(o *opts) int {
 			continue
 		}
 		v := vs[0]
-		dir := filepath.Join(o.verif, "replays")
-		os.MkdirAll(dir, 0o755)
-		path := filepath.Join(dir, fmt.Sprintf("%s-%d-%d-%08x.json", o.prop, o.seed, v.Index, uint32(hashStr(sig))))
-		b, _ := json.MarshalIndent(v, "", " ")
-		os.WriteFile(path, b, 0o644)
+		path := writeReplay(v)
+		if historyDependent && !confirm(path) {
+			// in a history-dependent library a violation is only reported if its replay
+			// file reproduces it in a fresh process
+			os.Remove(path)
+			continue
+		}
 		if reported < 25 {
 			fmt.Printf("VIOLATION property=%s replay=%s\n", o.prop, path)
 			fmt.Printf("  clause: %s\n  detail: %s\n  signature: %s (%d occurrence(s))\n", v.Clause, v.Detail, sig, len(vs))
@@ -464,6 +521,10 @@ func coord(o *opts) int {
 		reportedList = append(reportedList, map[string]any{"signature": sig, "clause": v.Clause, "detail": v.Detail, "replay": path, "occurrences": len(vs)})
 		reported++
 		exit = 1
+	}
+	if historyDependent && exit == 0 {
+		fmt.Fprintf(os.Stderr, "%s: the library's behaviour depends on earlier activity in the process (see note above; a C02 matter) and no %s violation could be confirmed by fresh-process replay: no verdict\n", o.prop, o.prop)
+		return 2
 	}
 	wall := time.Since(start).Seconds()
 	writeEvidence(o, ck, sites, merged, reported, reportedList, redo, wall, total)
@@ -487,6 +548,7 @@ func replay(o *opts) int {
 	}
 	o.prop, o.seed = v.Property, v.Seed
 	c := newCtx(o)
+	simrt.SimPools = true
 	got := ck.Replay(c, &v)
 	if got == nil {
 		fmt.Printf("replay: %s did not reproduce (clause %q holds on this tree)\n", o.file, v.Clause)
